@@ -330,6 +330,36 @@ pub fn specs(tier: Tier) -> Vec<GenSpec> {
     }
 }
 
+/// origin stub 0 -> 1, `lanes` lanes of 1..3 edges each from junction 1 to junction 2, destination stub 2 -> n-1; edge 0 is the
+/// origin stub, the last edge the destination stub; lane lengths make every lane a different total
+pub fn lane_nets() -> Vec<Net> {
+    let mut out = vec![];
+    for lanes in 2..=4usize {
+        for code in 0..3usize.pow(lanes as u32) {
+            let lens: Vec<usize> = (0..lanes).map(|i| 1 + (code / 3usize.pow(i as u32)) % 3).collect();
+            let mut edges = vec![(0usize, 1usize, 1.0)];
+            let mut next_v = 3;
+            for (li, len) in lens.iter().enumerate() {
+                let mut at = 1usize;
+                for step in 0..*len {
+                    let to = if step + 1 == *len {
+                        2
+                    } else {
+                        next_v += 1;
+                        next_v - 1
+                    };
+                    edges.push((at, to, 1.0 + li as f64 * 0.75 + step as f64 * 0.01 + edges.len() as f64 * 0.001));
+                    at = to;
+                }
+            }
+            let n = next_v + 1;
+            edges.push((2, n - 1, 1.0));
+            out.push(Net { n, edges, xy: None });
+        }
+    }
+    out
+}
+
 pub fn run(tier: Tier) -> i32 {
     let info = RunInfo::new("C01", tier);
     let specs = specs(tier);
@@ -369,11 +399,35 @@ pub fn run(tier: Tier) -> i32 {
         }
     });
     st.merge(st3);
+    // lanes: k-shortest-path answers with more routes than the small families have room for. An origin stub, 2-4 lanes of 1-3
+    // edges between two junctions, a destination stub; asked for by vertex and by edge (the stubs, and the first edge of one
+    // lane to the last edge of another), single-via with k = 2..4 under both underlying searches
+    let lanes = lane_nets();
+    let n_lanes = lanes.len() as u64;
+    let st4 = crate::engine::par_blocks(n_lanes, 4, |lo, hi, st| {
+        for i in lo..hi {
+            let net = &lanes[i as usize];
+            st.states += 1;
+            let w = World::distance(net.clone());
+            let m = net.m();
+            for k in 2..=4usize {
+                for (under, sim) in [(Algo::Dijkstra, None), (Algo::Dijkstra, Some(Sim::AcceptAll)), (Algo::AStar(Some(1.0)), Some(Sim::EdgeCos(0.99)))] {
+                    let algo = Algo::SingleVia { k, under: Box::new(under), sim, term: None };
+                    check_case(&w, &algo, &Orient::Vertex { o: 0, d: Some(net.n - 1) }, false, st);
+                    check_case(&w, &algo, &Orient::Edge { o: 0, d: Some(m - 1) }, false, st);
+                    check_case(&w, &algo, &Orient::Edge { o: 1, d: Some(m - 2) }, false, st);
+                    check_case(&w, &algo, &Orient::Edge { o: 0, d: Some(m - 2) }, false, st);
+                }
+            }
+        }
+    });
+    st.merge(st4);
     // Yen's algorithm can hang on this tree; its routes are put through the same clauses inside the sandbox of C13
     st.notes.insert("yens: route clauses of C01 are evaluated on Yen's routes by the sandboxed C13 check (signature yens.*/route_*)".into());
     let mut desc: Vec<String> = specs.iter().map(|s| s.describe()).collect();
     desc.extend(rspecs.iter().map(|s| format!("{} under A* weight factors 2/10 (re-opening sweep)", s.describe())));
     desc.extend(sspecs.iter().map(|s| format!("{} under plain A* (re-opening sweep with an inconsistent estimate)", s.describe())));
+    desc.push(format!("{} lane networks (origin stub, 2-4 lanes of 1-3 edges, destination stub) under single-via k = 2..4, by vertex and by edge", n_lanes));
     finish(
         &info,
         st,
